@@ -388,7 +388,10 @@ impl<'a> Gen<'a> {
         let extra = self.r.range(1, 3);
         let mut pos_started = false;
         for _ in 0..extra {
-            if !pos_started && self.r.chance(1, 2) {
+            if !pos_started && depth < self.sw.max_depth && self.r.chance(1, 5) {
+                // a group of its own inside the group (plain, optional or repeated)
+                fields.push(self.adjacent_group(depth + 1));
+            } else if !pos_started && self.r.chance(1, 2) {
                 let leaf = self.named_leaf();
                 fields.push(self.wrap_light(leaf));
             } else {
@@ -875,7 +878,36 @@ pub fn sentence(r: &mut Rng, s: &Shape, hostile: bool, out: &mut Sentence) {
             _ => sentence(r, inner, hostile, out),
         },
         Shape::Seq(fields, adjacent) => {
-            if *adjacent {
+            if *adjacent && r.chance(1, 8) {
+                // a disturbed block: members out of order, stray words in between (what a nested
+                // group then sees to the left of its parent's first item)
+                let mut parts: Vec<Vec<Tok>> = Vec::new();
+                for f in fields {
+                    let mut one = Sentence {
+                        named: vec![],
+                        pos: vec![],
+                    };
+                    sentence(r, f, hostile, &mut one);
+                    let toks = one.flatten(r, false);
+                    if !toks.is_empty() {
+                        parts.push(toks);
+                    }
+                }
+                if parts.len() > 1 {
+                    let k = r.range(1, parts.len() - 1);
+                    parts.rotate_left(k);
+                }
+                let mut toks: Vec<Tok> = Vec::new();
+                for part in parts {
+                    toks.extend(part);
+                    for _ in 0..*r.pick(&[0usize, 0, 1, 2, 3][..]) {
+                        toks.push(t(*r.pick(&["zzz", "1", "x", "-"][..])));
+                    }
+                }
+                if !toks.is_empty() {
+                    out.named.push(toks);
+                }
+            } else if *adjacent {
                 // keep the block contiguous and in order
                 let mut block = Sentence {
                     named: vec![],
